@@ -93,15 +93,20 @@ def gen_case(rnd, ctx, maxlen):
                         "Ixor", "Ixor", "DiffUpdate", "InterUpdate", "SymDiffUpdate", "SymDiffUpdate", "Copy"])
         if k in ("Add", "Discard", "Remove"):
             op = [k, items(1)[0]]
+            if k == "Add" and vk != "VAll" and rnd.random() < 0.15:
+                op = [k, 300 + rnd.randint(0, 5)]        # a float equal to a (possibly present) int member
         elif k in ("Pop", "Clear"):
             op = [k]
         elif k in ("Update", "DiffUpdate", "InterUpdate"):
             op = [k, [("self" if rnd.random() < 0.08 else items())
                       for _ in range(rnd.randint(0 if k != "InterUpdate" else 1, 3))]]
+            op.append([rnd.choice(["list", "list", "tuple", "iter", "gen"]) for _ in op[1]])
+            if k == "Update" and vk != "VAll" and rnd.random() < 0.15:
+                op[1].append([300 + rnd.randint(0, 5)])
         elif k in ("Ior", "Iand", "Isub", "Ixor"):
             op = [k, rnd.choice(["set", "set", "set", "frozenset", "list", "traitset", "traitset", "self"]), items()]
         elif k == "SymDiffUpdate":
-            op = [k, "self" if rnd.random() < 0.1 else items()]
+            op = [k, "self" if rnd.random() < 0.1 else items(), rnd.choice(["list", "tuple", "iter", "gen"])]
         else:
             # a TraitSetObject taken alone is copied by deepcopy only: its __setstate__ (copy.copy, pickle)
             # deliberately disconnects it from its trait (trait = None), deepcopy keeps the trait
@@ -111,7 +116,8 @@ def gen_case(rnd, ctx, maxlen):
         ctx.count("op:" + op[0])
         # hint update (ignores validation; good enough to steer overlaps)
         if k == "Add":
-            cur.add(op[1] % 100 if op[1] < 200 else op[1])
+            a = op[1]          # float atoms (300+i) never enter the hint pool: raw-containment ops must not see them
+            cur.add(a - 300 if a >= 300 else a % 100 if a < 200 else a)
         elif k == "Clear":
             cur.clear()
     if not ops:
@@ -140,6 +146,12 @@ def corpus():
                                 ["SymDiffUpdate", "self"], ["Add", 1], ["Update", ["self", [2]]],
                                 ["Ior", "traitset", [101, 3]], ["Ior", "traitset", [200]], ["Ixor", "traitset", [104, 1]],
                                 ["Isub", "traitset", [1]], ["Iand", "traitset", [2, 3]]]))
+    for vk in ("VInt", "VCInt"):
+        for target in ("plain", "obj"):
+            cs.append(dict(vk=vk, target=target, init=[1, 2, 3],
+                           ops=[["Add", 301], ["Add", 304], ["Update", [[302, 5]], ["list"]], ["Ior", "set", [303]],
+                                ["DiffUpdate", [[9, 2, 7], [3]], ["iter", "gen"]], ["InterUpdate", [[1, 5, 4]], ["iter"]],
+                                ["SymDiffUpdate", [4, 6], "gen"], ["Update", [[7], [8]], ["gen", "iter"]]]))
     cs.append(dict(vk="VCInt", target="plain", init=[1, 2, 3],
                    ops=[["Ixor", "set", [101, 4]], ["SymDiffUpdate", [102, 105, 200]], ["SymDiffUpdate", [103, 3]]]))
     return cs
